@@ -29,6 +29,7 @@ def load_known() -> dict:
 
 class Report:
     """Collects what one check run covered and found for ONE property."""
+    current = None        # the report of this process (main() finishes it if the machinery fails after violations were recorded)
 
     def __init__(self, pid: str, tier: str, level: str = "model_checking"):
         assert level in LEVELS
@@ -40,6 +41,7 @@ class Report:
         self._viol: list[dict] = []          # every failing case for this property
         self.notes: list[str] = []
         self.counters: dict[str, int] = {}
+        Report.current = self
 
     # ------------------------------------------------------------------ counting
     def count(self, key: str, n: int = 1):
